@@ -43,6 +43,7 @@ func c12(c *ctx) {
 		hi := min(lo+batch, n)
 		cp := corpus.New(c.env, peg, false, fmt.Sprintf("c12-%d", lo))
 		var hcs []*hcase
+		variantOf := map[int]variant{}
 		for i := lo; i < hi; i++ {
 			var g *gram.Grammar
 			alpha := []rune("abc\né😀")
@@ -55,9 +56,16 @@ func c12(c *ctx) {
 				g = gram.Backtracky(r, alpha)
 			}
 			cs := &gcase{id: i, g: g}
-			pkg := pkgName(i, vPlain)
+			v := vPlain
+			if i%4 == 1 {
+				// a quarter of the parser types is generated with -noast: actions run inline, the trace is the observable
+				v = vNoast
+				cs.inline = true
+			}
+			variantOf[i] = v
+			pkg := pkgName(i, v)
 			cs.text = gram.PrintGrammar(g, cs.printOpts(pkg, nil))
-			cp.Add(&corpus.Job{Pkg: pkg, Text: cs.text, RuleNames: ruleNames(g), HasActions: g.Count(gram.KAction) > 0, AllU: true})
+			cp.Add(&corpus.Job{Pkg: pkg, Text: cs.text, Opts: v.opts, NoAST: v.noast, RuleNames: ruleNames(g), HasActions: g.Count(gram.KAction) > 0, AllU: true})
 			// history: a pool of inputs, then a sequence with repeats, long/short alternation, empty input in the middle
 			pool := gram.Inputs(r, g, "R0", 10, alpha)
 			long := gram.Derive(r, g, "R0", alpha)
@@ -98,7 +106,7 @@ func c12(c *ctx) {
 		}
 		var slots []slot
 		for _, hc := range hcs {
-			pkg := pkgName(hc.cs.id, vPlain)
+			pkg := pkgName(hc.cs.id, variantOf[hc.cs.id])
 			// baseline: fresh instance per input (uint32, default size, memo)
 			for k, in := range hc.hist {
 				reqs = append(reqs, corpus.Req{Pkg: pkg, Entry: -1, In: []byte(in), Memo: true, U: "uint32"})
@@ -147,7 +155,7 @@ func c12(c *ctx) {
 				// the baseline itself is checked against the reference (verdict + tokens), so that "fresh" is right
 				it := ref.New(s.hc.cs.g, s.hc.hist[s.k])
 				ok, _ := it.Parse("R0")
-				if !it.Over && (ok != results[i].OK || ok && refTokStrings(it.Toks) != tokStrings(results[i].Toks)) {
+				if !it.Over && (ok != results[i].OK || ok && !variantOf[s.hc.cs.id].noast && refTokStrings(it.Toks) != tokStrings(results[i].Toks)) {
 					c.run.Violate("fresh-ref:"+report.Hash(s.hc.cs.text, s.hc.hist[s.k]), "a fresh parser disagrees with the reference (a C01/C03 matter, observed here)",
 						map[string]any{"grammar": s.hc.cs.text, "input": s.hc.hist[s.k], "got": resKey(&results[i]), "ref_verdict": ok, "ref_tokens": refTokStrings(it.Toks)})
 				}
@@ -213,7 +221,7 @@ func c12(c *ctx) {
 		cp.Remove()
 	}
 	requireCov(c, "histories_run", "histories_with_shrink_after_success", "histories_with_success_after_failure")
-	c.run.Rule = "cases: shared-prefix and all-operator grammars (captures, actions, memo revisits); per grammar one history of 6-40 inputs (accepted and rejected, repeated identical inputs, a long input between short ones, the empty input in the middle) run on ONE instance with Buffer=in; Reset(); Parse(); Execute(); AST()/SprintSyntaxTree() under U in {uint16,uint32,uint64,uint} x Size in {unset,1,32768} x memo on/off, and on a fresh instance per input. " +
+	c.run.Rule = "cases: shared-prefix and all-operator grammars (captures, actions, memo revisits; a quarter generated with -noast, whose inline action trace is compared); per grammar one history of 6-40 inputs (accepted and rejected, repeated identical inputs, a long input between short ones, the empty input in the middle) run on ONE instance with Buffer=in; Reset(); Parse(); Execute(); AST()/SprintSyntaxTree() under U in {uint16,uint32,uint64,uint} x Size in {unset,1,32768} x memo on/off, and on a fresh instance per input. " +
 		"Oracle: every step equals the fresh-instance result for that input (verdict; tokens, tree, printed tree, action trace on success; error token and message on failure), fresh results are equal across U/Size and agree with the reference interpreter. " +
 		"distinct_nontrivial = distinct (grammar, history) containing at least one shorter input right after a success and one success right after a failure."
 	c.run.Assume("inputs <= a few hundred runes so that every offset fits uint16; tokens after a failed parse are not compared")
